@@ -83,8 +83,52 @@ fn check_excess(e: u64, u: u64, t: u64, a: &mut Acc) {
     }
 }
 
+/// BlockEnv keeps (excess, price): every history of `set_blob_excess_gas_and_price` calls on one
+/// BlockEnv must leave the pair that the last call's arguments define
+fn env_menu() -> Vec<(u64, bool)> {
+    let mut v = vec![];
+    for e in [0u64, 1, 1 << 17, 2_314_057, 2_314_058, 10 << 20, 100_000_000, 161_087_488] {
+        v.push((e, false));
+        v.push((e, true));
+    }
+    v
+}
+fn check_env_history(h: &[(u64, bool)], a: &mut Acc) {
+    a.evaluations += 1;
+    let case = json!({"fn":"block_env_history","history": h});
+    let r = catch(|| {
+        let mut b = revm::primitives::BlockEnv::default();
+        let mut out = vec![];
+        for (e, p) in h {
+            b.set_blob_excess_gas_and_price(*e, *p);
+            out.push((b.get_blob_excess_gas(), b.get_blob_gasprice()));
+        }
+        out
+    });
+    match r {
+        Err(p) => a.violation(Violation { key: "block_env:panic".into(), msg: format!("set_blob_excess_gas_and_price history {h:?} panicked: {p}"), case }),
+        Ok(out) => {
+            for (i, ((e, p), (ge, gp))) in h.iter().zip(out).enumerate() {
+                let frac = if *p { 5007716u64 } else { 3338477 };
+                let exp = ref_fake_exp(1, *e, frac).and_then(|x| x.to_u128());
+                a.distinct(&("env", e, p, i));
+                if ge != Some(*e) || (exp.is_some() && gp != exp) {
+                    a.violation(Violation { key: "block_env:stale-or-wrong-price".into(), msg: format!("after call #{i} of {h:?}: BlockEnv reports excess {ge:?} price {gp:?}; set_blob_excess_gas_and_price({e},{p}) defines excess {e} price {exp:?}"), case });
+                    return;
+                }
+            }
+            a.outcome("env-history-exact");
+        }
+    }
+}
+
 pub fn replay(case: &Value) -> Vec<Violation> {
     let mut a = Acc::new();
+    if case["fn"].as_str() == Some("block_env_history") {
+        let h: Vec<(u64, bool)> = serde_json::from_value(case["history"].clone()).unwrap();
+        check_env_history(&h, &mut a);
+        return a.violations;
+    }
     let u = |k: &str| case[k].as_u64().unwrap();
     match case["fn"].as_str().unwrap() {
         "fake_exponential" => check_fe(u("factor"), u("numerator"), u("denominator"), &mut a),
@@ -157,12 +201,38 @@ pub fn run(ctx: &Ctx) -> i32 {
         })
         .collect();
     acc.merge(merge_all(accs));
+    // BlockEnv histories: every sequence of <= 3 calls over the menu
+    {
+        let m = env_menu();
+        let mut hs: Vec<Vec<(u64, bool)>> = vec![];
+        for x in &m {
+            hs.push(vec![*x]);
+            for y in &m {
+                hs.push(vec![*x, *y]);
+                for z in &m {
+                    hs.push(vec![*x, *y, *z]);
+                }
+            }
+        }
+        let accs: Vec<Acc> = hs
+            .par_chunks(64)
+            .map(|ch| {
+                let mut a = Acc::new();
+                for h in ch {
+                    check_env_history(h, &mut a);
+                }
+                a
+            })
+            .collect();
+        acc.bump("block_env_histories", hs.len() as u64);
+        acc.merge(merge_all(accs));
+    }
     acc.states = acc.evaluations;
     acc.transitions = acc.evaluations;
     acc.sample(|| json!({"fn":"calc_excess_blob_gas","excess":u64::MAX,"used":1,"target":1}));
     acc.sample(|| json!({"fn":"fake_exponential","factor":1,"numerator":300000000u64,"denominator":3338477}));
     let meta = Meta {
-        rule: "calc_excess_blob_gas over the cube of the u64 lattice; calc_blob_gasprice for every multiple of 2^17 (and +1) up to twice the 128-bit frontier and the lattice, both update fractions; fake_exponential over a (factor, numerator, denominator) lattice; distinct = distinct expected values".into(),
+        rule: "calc_excess_blob_gas over the cube of the u64 lattice; calc_blob_gasprice for every multiple of 2^17 (and +1) up to twice the 128-bit frontier and the lattice, both update fractions; fake_exponential over a (factor, numerator, denominator) lattice; every history of <= 3 BlockEnv::set_blob_excess_gas_and_price calls over 8 excess values x both fractions on one BlockEnv (the stored excess and price must be the last call's); distinct = distinct expected values".into(),
         assumptions: vec![
             "a value that does not fit may be reported by a panic or by explicit saturation at the type's maximum; any other returned value is a silent wrap".into(),
             "reference loop is cut once the sum exceeds 2^130 (terms are non-negative, so the result certainly exceeds 128 bits)".into(),
